@@ -13,7 +13,7 @@ RULE = ("case = (ordered list of key specifications, abbreviations on/off). Spec
         "+ random sets of 3-6 specs in 4 random orders; thorough: every set of <= 3 specs in every definition order "
         "(exhaustive, 12 720 ordered lists) x {abbr on, off} + random larger sets. Every argument has its own int slot; "
         "scenario = one definition + one probe '<key> 7' for every exact short/long key and every proper prefix "
-        "(length >= 2) of every long key of the universe. Oracle (30-line key-identity model): a definition is refused iff "
+        "(length >= 2) of every long key of the universe, plus every long key extended by 'zz' (must designate nothing). Oracle (30-line key-identity model): a definition is refused iff "
         "its short or its long key is already taken by an accepted one; an exact key sets exactly the slot of its owner; a "
         "proper prefix sets the slot of the only accepted long key starting with it iff abbreviations are on, otherwise "
         "the probe is rejected and no slot changes. non-trivial = >= 2 specs; distinct = hash of (ordered specs, flag, probe).")
@@ -85,6 +85,9 @@ def probes():
             if w not in seen:
                 seen.add(w)
                 p.append(("--" + w, "long", w))
+    # a word that EXTENDS a long key designates nothing (it is neither the key nor an abbreviation of it)
+    for l in LONGS:
+        p.append(("--" + l + "zz", "long", l + "zz"))
     return p
 
 
